@@ -248,7 +248,7 @@ TABLE['C13'] = {
 
 
 TABLE['C18'] = {
-    'modules': ['contracts.distarchive'],
+    'modules': ['contracts.distarchive', 'contracts.regencheck'],
     'level': 'exploration',
     'explanation': 'a universal statement over all builtins plus the behaviour of the external archive tool: no per-function contract carries it, nothing is proved. The check is a bounded runtime contract on the real pipeline: one generated project that creates file objects through find_files (with extra=), header_directory (with a pattern), static_library, executable, header_file, man_page, generic_file, copy_file, build_step and command inputs, a submodule with its own options file, extra_dist and a dist=False source is configured by the tree under test; the dist-gzip, dist-bzip2 and dist-zip targets are run by GNU make with the real doppel; the archive members must be exactly the files the description reads, and the unpacked archive must configure and build the distributed targets.',
     'assumptions': ['the installed doppel 0.5.0 is the archive tool a user runs'],
